@@ -132,7 +132,7 @@ func regionAxiom(key string, v *Term, alloc, arrAlloc *Term) *Term {
 		b := Const("r!", SRef)
 		return Forall([]Bind{{"r!", SRef}}, Or(Eq(Sel(v, b), TNull), Sel(alloc, Sel(v, b))))
 	}
-	if key == elemsKey(SRef) && alloc != nil {
+	if strings.HasPrefix(key, "Elems$Ref") && alloc != nil {
 		a, i := Const("a!", SInt), Const("i!", SInt)
 		e := Sel(Sel(v, a), i)
 		return Forall([]Bind{{"a!", SInt}, {"i!", SInt}}, Or(Eq(e, TNull), Sel(alloc, e)))
@@ -466,7 +466,7 @@ func (x *Xlat) evalArgsSig(st *State, fr *Frame, out *Outcomes, argExprs []ast.E
 				et := sig.Params().At(np - 1).Type().(*types.Slice).Elem()
 				es := x.tm.SortOf(et)
 				a := x.allocArr(st)
-				key := elemsKey(es)
+				key := x.tm.ElemsKey(et)
 				h := x.get(st, key, elemsSort(es))
 				inner := Sel(h, a)
 				for i, t := range tail {
@@ -575,7 +575,7 @@ func (x *Xlat) builtin(st *State, fr *Frame, out *Outcomes, ce *ast.CallExpr, na
 			x.safety(st, out, "make", And(App(">=", SBool, n, IntLit(0)), App("<=", SBool, n, c)), ce.Pos(), "makeslice: len out of range: "+x.src(ce))
 			a := x.allocArr(st)
 			es := x.tm.SortOf(u.Elem())
-			key := elemsKey(es)
+			key := x.tm.ElemsKey(u.Elem())
 			h := x.get(st, key, elemsSort(es))
 			zero := App("(as const "+ArrSort(SInt, es)+")", ArrSort(SInt, es), x.tm.Zero(u.Elem()))
 			h2 := x.setElems(st, key, es, h, Sto(h, a, zero), touchedArr(a))
@@ -656,7 +656,7 @@ func (x *Xlat) builtin(st *State, fr *Frame, out *Outcomes, ce *ast.CallExpr, na
 // appendOne models append(s, v): in place when len < cap, otherwise a fresh array with some capacity >= len+1.
 func (x *Xlat) appendOne(st *State, s *Term, v *Term, et types.Type) *Term {
 	es := x.tm.SortOf(et)
-	key := elemsKey(es)
+	key := x.tm.ElemsKey(et)
 	if s.Op != "mk_Slice" {
 		s = x.ctx.Define("aps", s)
 	}
@@ -702,7 +702,7 @@ func (x *Xlat) appendOne(st *State, s *Term, v *Term, et types.Type) *Term {
 // appendSlice models append(s, o...).
 func (x *Xlat) appendSlice(st *State, s, o *Term, et types.Type) *Term {
 	es := x.tm.SortOf(et)
-	key := elemsKey(es)
+	key := x.tm.ElemsKey(et)
 	s = x.ctx.Define("aps", s)
 	o = x.ctx.Define("apo", o)
 	h := x.get(st, key, elemsSort(es))
@@ -750,7 +750,7 @@ func (x *Xlat) appendSlice(st *State, s, o *Term, et types.Type) *Term {
 
 func (x *Xlat) copyElems(st *State, dst, src, n *Term, et types.Type) {
 	es := x.tm.SortOf(et)
-	key := elemsKey(es)
+	key := x.tm.ElemsKey(et)
 	h := x.get(st, key, elemsSort(es))
 	resArr := x.ctx.Fresh("arrv", ArrSort(SInt, es))
 	i := Const("i!", SInt)
